@@ -238,6 +238,10 @@ class EdgeLandmark(BaseEdge):
             Whether the two edges are equal
 
         """
+        # Other edge types do not have an offset
+        if not isinstance(other, EdgeLandmark):
+            return False
+
         if not type(self.offset) is type(other.offset):  # noqa
             return False
 
